@@ -683,15 +683,13 @@ func (ex *Exec) arrayFieldSlice(ref string, n *types.Named, stT *types.Struct, f
 		ex.w.declFun(fn, []*Sort{sRef}, sArrId)
 		inv := sym("arrof_inv_" + strings.TrimPrefix(ex.fieldKey(n, stT, fname), "f:"))
 		ex.w.declFun(inv, []*Sort{sArrId}, sRef)
-		ex.w.axioms = append(ex.w.axioms,
-			fmt.Sprintf("(forall ((r Ref)) (! (and (= (%s (%s r)) r) (not (= (%s r) nilarr))) :pattern ((%s r))))", inv, fn, fn, fn))
-		ex.w.arrOfFns = append(ex.w.arrOfFns, fn)
-		// distinct array fields never share a backing array
-		for _, other := range ex.w.arrOfFns {
-			if other != fn {
-				ex.w.axioms = append(ex.w.axioms, fmt.Sprintf("(forall ((r Ref) (q Ref)) (! (not (= (%s r) (%s q))) :pattern ((%s r) (%s q))))", fn, other, fn, other))
-			}
+		if !ex.w.declared["g_arrkind"] {
+			ex.w.declFun("g_arrkind", []*Sort{sArrId}, sInt)
 		}
+		ex.w.arrOfFns = append(ex.w.arrOfFns, fn)
+		// injective, never nilarr; distinct array fields never share a backing array (distinct kinds)
+		ex.w.axioms = append(ex.w.axioms,
+			fmt.Sprintf("(forall ((r Ref)) (! (and (= (%s (%s r)) r) (not (= (%s r) nilarr)) (= (g_arrkind (%s r)) %d)) :pattern ((%s r))))", inv, fn, fn, fn, len(ex.w.arrOfFns), fn))
 	}
 	s := &Sort{Kind: KSlice, Name: "Slice", Elem: ex.w.sortOf(arr.Elem()), Go: ft}
 	return Val{T: fmt.Sprintf("(mkslice (%s %s) 0 %d %d)", fn, ref, arr.Len(), arr.Len()), S: s, Go: ft}
